@@ -240,10 +240,19 @@ def min_abs_argument(e, x, names):
     return best[0]
 
 
+def max_abs_pow_base(e, x):
+    """Largest |base| of a real power / sqrt node at the real point x (0 if there is none)."""
+    return _pow_base_extreme(e, x, max, 0.0)
+
+
 def min_abs_pow_base(e, x):
     """Smallest |base| of a real power / sqrt node when the tree is evaluated at the real point x
     (inf if there is none).  Bicomplex.__pow__ treats |base| < 1e-15 as a zero divisor."""
-    best = [math.inf]
+    return _pow_base_extreme(e, x, min, math.inf)
+
+
+def _pow_base_extreme(e, x, pick, start):
+    best = [start]
 
     def walk(t):
         if t[0] in ('x', 'c'):
@@ -254,7 +263,7 @@ def min_abs_pow_base(e, x):
                 with np.errstate(all='ignore'):
                     v = abs(complex(ev(sub, x, _np_unary)))
                 if v == v:
-                    best[0] = min(best[0], v)
+                    best[0] = pick(best[0], v)
             except Exception:
                 pass
         for sub in t[1:]:
